@@ -221,4 +221,25 @@ WITNESSES = [
     dict(name="inp-written-in-default-units", file=ESIM, old="units=self._wn.options.hydraulic.inpfile_units, version=version)", new="version=version)", rule="R-C03-2"),
     dict(name="length-for-head-preserving", file=EIO, old="self.results.node['head'] = HydParam.HydraulicHead._to_si(self.flow_units, df['head'])",
          new="self.results.node['head'] = HydParam.Length._to_si(self.flow_units, df['head'])", silent=True),
+    # START CLOCKTIME reader (_clock_time_to_sec): the round trip is decided by evaluating the reader on the written text, so the way the
+    # regular expression is spelled must not matter, and a wrong 12-hour conversion on the READER side must be caught as well
+    dict(name="clock-reader-re-search-and-unpacking", file=EIO,
+         old="    pattern1 = re.compile(r'^(\\d+):(\\d+):(\\d+)$')\n    time_tuple = pattern1.search(s)\n    if bool(time_tuple):\n        time_sec = (int(time_tuple.groups()[0])*60*60 +\n"
+             "                    int(time_tuple.groups()[1])*60 +\n                    int(round(float(time_tuple.groups()[2]))))\n",
+         new="    match_hms = re.search(r'^(\\d+):(\\d+):(\\d+)$', s)\n    if match_hms:\n        hours, minutes, seconds = match_hms.groups()\n"
+             "        time_sec = int(hours)*60*60 + int(minutes)*60 + int(round(float(seconds)))\n", silent=True),
+    dict(name="clock-reader-match-group-index", file=EIO,
+         old="    time_tuple = pattern1.search(s)\n    if bool(time_tuple):\n        time_sec = (int(time_tuple.groups()[0])*60*60 +\n"
+             "                    int(time_tuple.groups()[1])*60 +\n                    int(round(float(time_tuple.groups()[2]))))\n",
+         new="    time_tuple = pattern1.match(s)\n    if time_tuple is not None:\n        time_sec = (int(time_tuple.group(1))*60*60 +\n"
+             "                    int(time_tuple[2])*60 +\n                    int(round(float(time_tuple.group(3)))))\n", silent=True),
+    dict(name="clock-reader-tail-written-once", file=EIO,
+         old="        if s.startswith('12'):\n            time_sec -= 3600*12\n        if not am:\n            if time_sec >= 3600*12:\n"
+             "                raise ENValueError(213, s, 'Cannot specify am/pm for times greater than 12:00:00')\n            time_sec += 3600*12\n        return time_sec\n    else:\n",
+         new="        return _am_pm_shift(s, time_sec, am)\n    else:\n",
+         also=[("def _sec_to_string(sec):\n", "def _am_pm_shift(s, time_sec, am):\n    if s.startswith('12'):\n        time_sec -= 3600*12\n    if not am:\n        if time_sec >= 3600*12:\n"
+                "            raise ENValueError(213, s, 'Cannot specify am/pm for times greater than 12:00:00')\n        time_sec += 3600*12\n    return time_sec\n\n\ndef _sec_to_string(sec):\n")],
+         silent=True),
+    dict(name="clock-reader-pm-not-shifted", file=EIO, old="            time_sec += 3600*12\n        return time_sec\n    else:\n        pattern2",
+         new="        return time_sec\n    else:\n        pattern2", rule="R-C03-2"),
 ]
